@@ -3,6 +3,7 @@ import FormulaicVerif.Proofs.C18Scope
 import FormulaicVerif.Proofs.C18XWf
 import FormulaicVerif.Gen.SpecState
 import FormulaicVerif.Proofs.C18Edit
+import FormulaicVerif.Proofs.C18Dot
 /-! # C18 — Materialization is pure and deterministic across calls, histories and hash seeds
 
 "Building a model matrix never mutates the input data, the formula, or the observable behaviour of
@@ -493,6 +494,44 @@ example : (xrun P₀ XWorld.init [.formula [["center(x)"]], .newSpec 0 ⟨true, 
       .edit 0 (.append ["z"]), .edit 0 (.del 5), .call [0] none 2]).map
         (fun o => o.toOption.map (List.map (·.terms)))
     = [some [], some [], some [[["center(x)"]]], some [], none, some [[["center(x)"], ["z"]]]] := by decide
+
+/-! ### Specs given as STRINGS, the `.` wildcard
+
+A build of a string parses it there and then into new formula objects (`formula` operations) and
+builds those.  `Model/HeapDot.lean` computes what a string with `.` is parsed to: a function of the
+string (as a template), the columns of the data set of THIS call and the variables of the string's
+OWN left-hand side. -/
+
+/-- C18.2x  Interleaving one-sided and two-sided string specs on any shared objects: after ANY history —
+other strings parsed before on the same materializer object or with the same context mapping,
+two-sided ones with any left-hand sides included — parsing a string into the formulas `fs` and
+building them gives exactly the outcome of building `fs` in the empty world.  (With `fs` the
+expansion `HeapDot.expand cols lhsVars tmpl remove` of a `.` string: the third `"."` after `"y ~ ."`
+gives what the first gave, `y` included.) -/
+theorem string_build_is_history_independent (h : List XOp) (fs : List Formula) (cfg : Cfg) (d : Data) :
+    (xstep P (xfinal P XWorld.init (h ++ fs.map XOp.formula))
+        (.build (List.range' (xfinal P XWorld.init h).forms.length fs.length) cfg d)).2
+      = liftOut (pstep P [] (.build fs cfg d)).2 := by
+  rw [x_call_is_pure, xpfinal_append]
+  have hf : (xpfinal P XEnv.init h).forms.length = (xfinal P XWorld.init h).forms.length := by
+    have e := (xrun_sim P h XWorld.init xinv_init).2.1
+    have e' : xpfinal P XEnv.init h = xabs (xfinal P XWorld.init h) := e.symm
+    rw [e']; rfl
+  rw [← hf]
+  exact xpstep_string_build P _ fs cfg d
+
+/-- what `.` stands for, on a frame with the columns x, z, y, a, b: `"."` is every column; `"y ~ ."` every
+column but `y`; `". - a"`; `"(.):b"` (where `b:b` is `b`, sorted first by degree); `"a ~ (.):b"` -/
+example : FormulaicVerif.Model.HeapDot.expand ["x", "z", "y", "a", "b"] [] [[], ["."]] []
+      = [[], ["x"], ["z"], ["y"], ["a"], ["b"]]
+    ∧ FormulaicVerif.Model.HeapDot.expand ["x", "z", "y", "a", "b"] ["y"] [[], ["."]] []
+      = [[], ["x"], ["z"], ["a"], ["b"]]
+    ∧ FormulaicVerif.Model.HeapDot.expand ["x", "z", "y", "a", "b"] [] [[], ["."]] [["a"]]
+      = [[], ["x"], ["z"], ["y"], ["b"]]
+    ∧ FormulaicVerif.Model.HeapDot.expand ["x", "z", "y", "a", "b"] [] [[], [".", "b"]] []
+      = [[], ["b"], ["x", "b"], ["z", "b"], ["y", "b"], ["a", "b"]]
+    ∧ FormulaicVerif.Model.HeapDot.expand ["x", "z", "y", "a", "b"] ["a"] [[], [".", "b"]] []
+      = [[], ["b"], ["x", "b"], ["z", "b"], ["y", "b"]] := by decide
 
 end extended
 
